@@ -578,7 +578,10 @@ class Name:
                     strio.write(struct.pack("!H", 0xC000 | compDict[name]))
                     return
                 else:
-                    compDict[name] = strio.tell() + Message.headerSize
+                    offset = strio.tell() + Message.headerSize
+                    if offset < 0x4000:
+                        # A compression pointer only has 14 bits of offset.
+                        compDict[name] = offset
             ind = name.find(b".")
             if ind > 0:
                 label, name = name[:ind], name[ind + 1 :]
@@ -587,6 +590,8 @@ class Name:
                 label = name
                 name = None
                 ind = len(label)
+            if ind > 63:
+                raise ValueError(f"DNS label longer than 63 octets: {label!r}")
             strio.write(_ord2bytes(ind))
             strio.write(label)
         strio.write(b"\x00")
